@@ -165,6 +165,10 @@ func init() {
 		},
 	}
 	c19Phases = append([]*fw.Phase{parsers}, c19MorePhases()...)
+	c19Phases = append(c19Phases,
+		nativeFuzzPhase("native-fuzz-parsers", "FuzzParsers", "", 4000000),
+		nativeFuzzPhase("native-fuzz-unpack", "FuzzUnpack", "", 80000),
+		nativeFuzzPhase("native-fuzz-opendir", "FuzzOpenDir", "", 150000))
 	fw.Register(&fw.Property{
 		ID:    "C19",
 		Level: "exploration",
